@@ -11,8 +11,8 @@ from props import _design
 
 TITLE = "exhausted IterateSATGen = valid set"
 LEVEL = "proof"
-DOMAINS = ['Design', 'DocSem']
-EXTRA_PROPERTY_FILES = ["T2"]   # theorems about Design/DocSem.v, the Gallina rendering of the documented semantics
+DOMAINS = ['Design', 'DocSem', 'T2']
+EXTRA_PROPERTY_FILES = ["T2", "T2c"]   # theorems about Design/DocSem.v, the Gallina rendering of the documented semantics
 STRAT = "IterateSATGen"
 
 
@@ -70,9 +70,39 @@ def docsem_layer(res, batch):
             failing_input=False))
 
 
+def t2c_layer(ctx, res, batch):
+    """T2(c) per run on the plain fragment (single CrossBlock of plain factors): Front/PlainInput.v +
+    Front/CreateFlat.v rebuild the flat record from the PROGRAM alone, it must equal the real block's, and
+    Encode/CodeSem.v's reading of it must be sem_eqv (Design/SemEqv.v: equal valid_b) to Design/DocSem.v's
+    doc_sem of the program - the chain program -> code's semantics vs documented semantics, inside Coq."""
+    import json
+    import t2_corr
+    from common import Violation
+    progs = [r["program"] for r in batch] + t2_corr.plain_programs(ctx.rng, 80 if ctx.quick else 800)
+    stats = {}
+    try:
+        bad = t2_corr.compare(progs, stats)
+    except Exception as e:  # noqa
+        res.violations.append(Violation("corr:T2c", "T2(c) layer failed: %r" % (e,), {"layer": "T2c-plain", "error": repr(e)},
+                                        failing_input=False))
+        return
+    badi = {i for i, _ in bad}
+    inside = 0
+    for i in range(len(progs)):
+        res.layer("T2c-plain", i not in badi)
+    res.extra["t2c_plain"] = dict(sorted(stats.items()))
+    if bad:
+        i, r = bad[0]
+        res.violations.append(Violation(
+            "corr:T2c", "program -> create_flat -> code_sem vs doc_sem breaks on %d programs, e.g. %s on %s" % (
+                len(bad), r[:200], json.dumps(progs[i])[:600]),
+            {"layer": "T2c-plain", "theorems": ["T2c_*"], "program": progs[i], "result": r[:2000]}, failing_input=False))
+
+
 def run(ctx, res):
     batch = _design.load(ctx, res)
     docsem_layer(res, batch)
+    t2c_layer(ctx, res, batch)
     for r in _design.analysed(batch):
         _design.count(res, r)
         d = diff(r, STRAT)
